@@ -425,8 +425,26 @@ void execute_assignment(StatementExecutor *executor, Interpreter &interpreter,
         // 配列要素への代入
 
         // 右辺が構造体戻り値関数の場合の特別処理
+        // the look-ahead evaluation exists to catch struct return values; a plain
+        // function declared with an integral result is evaluated exactly once below
+        bool rhs_integral_call = false;
         if (node->right &&
-            node->right->node_type == ASTNodeType::AST_FUNC_CALL) {
+            node->right->node_type == ASTNodeType::AST_FUNC_CALL &&
+            !node->right->left && !node->right->is_qualified_call) {
+            const ASTNode *callee = interpreter.find_function(node->right->name);
+            if (callee && !callee->is_array_return) {
+                std::string rt = callee->return_type_name;
+                if (rt.rfind("unsigned ", 0) == 0) {
+                    rt = rt.substr(9);
+                }
+                rhs_integral_call = (rt == "int" || rt == "long" ||
+                                     rt == "short" || rt == "tiny" ||
+                                     rt == "char" || rt == "bool");
+            }
+        }
+        if (node->right &&
+            node->right->node_type == ASTNodeType::AST_FUNC_CALL &&
+            !rhs_integral_call) {
             try {
                 // 関数呼び出し結果を評価（戻り値は現在未使用だが、副作用のため実行）
                 interpreter.evaluate(node->right.get());
